@@ -287,6 +287,48 @@ def r20_4(chk):
     chk.floor("R20.4", 6)
 
 
+def r20_5(chk):
+    """A link (centre, orientation, offset) is a valid step of a chain only if the offset is expressed relative to the centre
+    it is linked to, along the axes it names: at every site the three arguments name one and the same frame."""
+    import ast as _a
+    sites = {
+        "beyond/frames/stations.py::create_station": "param",       # body-fixed coordinates in the parent frame given by the caller
+        "beyond/frames/frames.py::orbit2frame": "offset.frame",     # the orbit is expressed in its own frame
+        "beyond/env/solarsystem.py::get_frame": "offset.FRAME",     # analytical propagators name their frame
+    }
+    for ref, kind in sites.items():
+        rel, qn = ref.split("::")
+        f = chk.repo.func(rel, qn)
+        calls = [n for n in walk_no_nested(f.node) if isinstance(n, _a.Call) and isinstance(n.func, _a.Attribute) and n.func.attr == "add_link"]
+        if len(calls) != 1 or len(calls[0].args) != 3:
+            raise AnalysisError(f"{ref}: add_link(centre, orientation, offset) call not found")
+        c, o, off = (unparse(a) for a in calls[0].args)
+        root_c = c[:-len(".center")] if c.endswith(".center") else None
+        root_o = o[:-len(".orientation")] if o.endswith(".orientation") else None
+        ok = root_c is not None and root_c == root_o
+        what = f"centre and axes both those of `{root_c}`"
+        if ok and kind == "param":
+            ok = root_c in f.params()
+        elif ok and kind == "offset.frame":
+            ok = root_c == f"{off}.frame" and off in f.params()
+            what += " = the frame the offset orbit is expressed in"
+        elif ok and kind == "offset.FRAME":
+            defs = [s for s in walk_no_nested(f.node) if isinstance(s, _a.Assign) and unparse(s.targets[0]) == root_c]
+            ok = len(defs) == 1 and unparse(defs[0].value).replace(" ", "") == f"frames.get_frame({off}.FRAME)"
+            what += " = the frame named by the offset propagator"
+        chk.inst("R20.5", f"{ref}::link-coherent", ok, what if ok else
+                 f"the new centre is linked to `{c}` along `{o}` with offset `{off}`: centre, axes and offset no longer name one frame, "
+                 "so the link is not a valid step between the two centres", loc(f, calls[0]))
+    # Lagrange: offset given by LagrangePropagator(frame1, body2, n) along LagrangeOrient(frame1, body2), relative to frame2's centre
+    f = chk.repo.func("beyond/frames/lagrange.py", "lagrange")
+    t = unparse(f.node)
+    f1, f2 = f.params()[0:2]
+    ok = f"l_orient = LagrangeOrient({f1}, {f2}.center.body)" in t and f"l_prop = LagrangePropagator({f1}, {f2}.center.body, number)" in t \
+        and f"l_center.add_link({f2}.center, l_orient, l_prop)" in t
+    chk.inst("R20.5", f"{f.ref}::link-coherent", ok, "offset propagator and axes built from the same (frame1, body2) pair, linked to body2's centre" if ok else "changed", loc(f, f.node))
+    chk.floor("R20.5", 4)
+
+
 def run(chk):
     chk.rule("R20.1", "built-in graphs are trees")
     chk.rule("R20.2", "registration sites attach a node created in the call to exactly one pre-existing node (leaf attachment)")
@@ -296,5 +338,7 @@ def run(chk):
     chk.guard(r20_2, chk)
     chk.guard(r20_3, chk)
     chk.guard(r20_4, chk)
+    chk.rule("R20.5", "every link's centre, axes and offset name one frame (the offset is relative to the centre it is linked to)")
+    chk.guard(r20_5, chk)
     chk.assume("leaf attachment to a tree keeps it a tree, and on a tree the route is unique: routing correctness on the built-in "
                "graphs then needs only that _update reaches every node (R20.4 shape), not shortest-path selection")
